@@ -447,6 +447,7 @@ def story_grid_messages(S, kmax=3, full=True):
     # replace
     for kind in ('roStoryReplace', 'EAStoryReplace'):
         for t in tgt_all:
+            yield kind, dict(target=t, carried=[])          # replace with nothing (outside the order claim)
             yield kind, dict(target=t, carried=[new('N1')])
             yield kind, dict(target=t, carried=[new('N1'), new('N2')])
             if isinstance(t, str):
